@@ -87,6 +87,183 @@ func docLess(a, b []any) bool {
 	return len(a) < len(b)
 }
 
+// ---- the streaming handler's reading of the targets (attribution of C17-K1..K3 only) ----
+//
+// jp.MatchHandler decides with jp.PathMatch on the path of the element being read: a negative
+// index never equals a normalized one (K1), a slice accepts every index (K2, documented), the
+// part of a target from its first filter on is applied, with the collected container as root,
+// once that container is complete, and nothing inside a container that is being collected is
+// looked at for the other targets (K3). handlerReading replays exactly that on the parsed
+// document; a discrepancy is attributed to those findings only when it gives what was delivered.
+
+// prefixMatch is jp.PathMatch for a target recipe without filter against a normalized location.
+func prefixMatch(target jpx.Path, path []any) bool {
+	for len(target) > 0 && (target[0].K == "root" || target[0].K == "at") {
+		target = target[1:]
+	}
+	for i, f := range target {
+		if len(path) == 0 {
+			return false
+		}
+		if f.K == "bracket" {
+			continue
+		}
+		switch f.K {
+		case "child":
+			if k, ok := path[0].(string); !ok || k != f.Key {
+				return false
+			}
+		case "nth":
+			if n, ok := path[0].(int); !ok || n != f.N {
+				return false
+			}
+		case "wild":
+		case "union":
+			ok := false
+			for _, u := range f.U {
+				switch ts := path[0].(type) {
+				case string:
+					if u.Key != nil && *u.Key == ts {
+						ok = true
+					}
+				case int:
+					if u.Idx != nil && *u.Idx == ts {
+						ok = true
+					}
+				}
+			}
+			if !ok {
+				return false
+			}
+		case "slice":
+			if _, ok := path[0].(int); !ok {
+				return false
+			}
+		case "descent":
+			rest := target[i+1:]
+			for len(path) > 0 {
+				if prefixMatch(rest, path) {
+					return true
+				}
+				path = path[1:]
+			}
+			return false
+		default:
+			return false
+		}
+		path = path[1:]
+	}
+	return true
+}
+
+type splitTarget struct {
+	prefix, rest jpx.Path
+}
+
+func handlerReading(doc any, targets []jpx.Path) (hits []hit, open string) {
+	var sts []splitTarget
+	for _, t := range targets {
+		st := splitTarget{prefix: t}
+		for i, f := range t {
+			if f.K == "filter" {
+				st.prefix, st.rest = t[:i], t[i:]
+				break
+			}
+		}
+		sts = append(sts, st)
+	}
+	var walk func(v any, path []any)
+	walk = func(v any, path []any) {
+		matched, plain := false, false
+		for _, st := range sts {
+			if prefixMatch(st.prefix, path) {
+				matched = true
+				if st.rest == nil {
+					plain = true
+				}
+			}
+		}
+		switch tv := v.(type) {
+		case map[string]any, []any:
+			if !matched {
+				if m, ok := tv.(map[string]any); ok {
+					keys := make([]string, 0, len(m))
+					for k := range m {
+						keys = append(keys, k)
+					}
+					sort.Strings(keys)
+					for _, k := range keys {
+						walk(m[k], append(append([]any(nil), path...), k))
+					}
+				} else {
+					for i, e := range tv.([]any) {
+						walk(e, append(append([]any(nil), path...), i))
+					}
+				}
+				return
+			}
+			if plain {
+				hits = append(hits, hit{locText(path), canon.String(v, canon.Value)})
+				return
+			}
+			seen := map[string]bool{}
+			var locs []jpx.Loc
+			for _, st := range sts {
+				if st.rest != nil && prefixMatch(st.prefix, path) {
+					r := jpx.Eval(st.rest, v)
+					if r.DontCare != "" {
+						open = r.DontCare
+					}
+					for _, l := range r.Locs {
+						if !seen[key(l.Path)] {
+							seen[key(l.Path)] = true
+							locs = append(locs, l)
+						}
+					}
+				}
+			}
+			sort.Slice(locs, func(i, j int) bool { return handlerLess(locs[i].Path, locs[j].Path) })
+			for _, l := range locs {
+				hits = append(hits, hit{locText(append(append([]any(nil), path...), l.Path...)), canon.String(l.Val, canon.Value)})
+			}
+		default:
+			if plain {
+				hits = append(hits, hit{locText(path), canon.String(v, canon.Value)})
+			}
+		}
+	}
+	walk(doc, nil)
+	return hits, open
+}
+
+// handlerLess: indices by number, keys by name, an index before a key, a prefix first.
+func handlerLess(a, b []any) bool {
+	for i := range a {
+		if len(b) <= i {
+			return false
+		}
+		switch ta := a[i].(type) {
+		case int:
+			tb, ok := b[i].(int)
+			if !ok {
+				return true
+			}
+			if ta != tb {
+				return ta < tb
+			}
+		case string:
+			tb, ok := b[i].(string)
+			if !ok {
+				return false
+			}
+			if ta != tb {
+				return ta < tb
+			}
+		}
+	}
+	return len(a) < len(b)
+}
+
 func Run(cs Case, c *vrt.Ctx) {
 	doc := wx.Dec(cs.Doc)
 	text := oj.JSON(doc, &ojg.Options{Sort: true, Indent: cs.Indent})
@@ -259,6 +436,10 @@ func Run(cs Case, c *vrt.Ctx) {
 			}
 		}
 		if fmt.Sprint(got) != fmt.Sprint(want) {
+			tags := tags
+			if hr, open := handlerReading(doc, cs.Targets); fmt.Sprint(got) == fmt.Sprint(hr) || open != "" {
+				tags = append(append([]string(nil), tags...), "explained-by-handler-reading")
+			}
 			kind := "wrong-matches"
 			gs, ws := append([]hit(nil), got...), append([]hit(nil), want...)
 			sort.Slice(gs, func(i, j int) bool { return gs[i].path+gs[i].val < gs[j].path+gs[j].val })
@@ -357,13 +538,19 @@ var classifiers = []vrt.Classifier{
 	// C17-K1: a negative index (or negative union member) in a target never matches while
 	// streaming: PathMatch compares the target index with the normalized index of the element
 	// being read and the array length is not known at that point.
-	{ID: "C17-K1", Match: func(d vrt.Disc, c *vrt.Ctx) bool { return has(d, "negative-index") }},
+	{ID: "C17-K1", Match: func(d vrt.Disc, c *vrt.Ctx) bool {
+		return has(d, "negative-index") && has(d, "explained-by-handler-reading")
+	}},
 	// C17-K2: a slice in a target matches every array index (documented in jp.PathMatch: "Slice
 	// fragments always return true as long as the path element is an Nth"), so bounds and step
 	// are ignored by the streaming matchers.
-	{ID: "C17-K2", Match: func(d vrt.Disc, c *vrt.Ctx) bool { return has(d, "has:slice") }},
+	{ID: "C17-K2", Match: func(d vrt.Disc, c *vrt.Ctx) bool {
+		return has(d, "has:slice") && has(d, "explained-by-handler-reading")
+	}},
 	// C17-K3: a trailing filter is evaluated on the collected parent with Locate(v, 1)/First, so
 	// only the first matching member is reported (and $ in the filter has no root); the other
 	// members the filter selects are not delivered.
-	{ID: "C17-K3", Match: func(d vrt.Disc, c *vrt.Ctx) bool { return has(d, "has:filter") }},
+	{ID: "C17-K3", Match: func(d vrt.Disc, c *vrt.Ctx) bool {
+		return has(d, "has:filter") && has(d, "explained-by-handler-reading")
+	}},
 }
